@@ -23,6 +23,7 @@ import CelloProofs.Lemmas.MarkRetype
 import CelloProofs.Lemmas.MarkBits
 import CelloProofs.Lemmas.MarkRelease
 import CelloProofs.Lemmas.MarkWitness
+import CelloProofs.Lemmas.MarkType
 import Cello.HeapMid
 import CelloGen.GcMid
 import CelloProofs.Lemmas.MarkMid
@@ -930,6 +931,149 @@ example {σ : Type} (S : MarkSet σ) (d : Nat) : (level S Cfg.current danglingHe
 
 /-- … while the guarded callback completes on it and marks it (non-vacuity of `C01_rec_agrees`) -/
 example : (level listSet Cfg.current selfTupleHeap 3).item 4096 [] = .ok [4096] := by decide
+
+/-! ### the header's type pointer: a run-time Type is not kept alive by its instances (known finding KF-C01-type-outlived)
+
+  `Cello/HeapRec.lean` (`TyMap`, `ReachableT`, `typesAnchored`, `TState.run`): an object refers to its Type through its header, which lies in
+  front of the address the collector knows; the collector neither marks through that pointer nor orders the release.  The unconditional
+  statement — reachability INCLUDING the header edge, every collection runs to completion — is refuted for the source as it is; the theorems
+  hold under the explicit, decidable hypothesis "the types of all registered objects are static, root-registered, or themselves reachable
+  from the roots" (`typesAnchored`, checked whenever a mark phase begins: `TState.anchored`). -/
+
+/-- the unconditional statement over typed histories: every mark phase runs to completion (no `GC_Recurse` on an object whose Type has been
+    released) and no object reachable from the roots — along the words the collector reads OR along a header's type pointer — is put on the
+    pending list -/
+def C01_type_edge_statement : Prop :=
+  ∀ (ops : List TOp) (s0 : TState), s0.g.heap.WF → (∀ op ∈ TOp.erase ops, op.ok) →
+    ∃ s2 evs, TState.run listSet Cfg.current clearFirstNow ops s0 = some (s2, evs) ∧
+      ∀ tev ∈ evs, ∀ a,
+        ReachableT Cfg.current tev.ev.before.heap tev.ty
+          (rootWords Cfg.current tev.ev.before.heap tev.ev.before.thread tev.ev.before.stack) a → a ∉ tev.ev.pending
+
+/-- **Refuted (known finding KF-C01-type-outlived, not repaired): the header's type pointer is not traced.**
+    `T = new(Type, …)` at 4160 (an ordinary non-root registry entry: `Type_Alloc` → `alloc_by` → `GC_Set`), `x = new(T)` at 4096 held by a stack
+    word; nothing but `header(x)->type` refers to `T`.  (1) `T` is reachable through the header edge, not along the words the collector reads;
+    (2) one collection puts `T` on the pending list and releases it while `x` stays registered; (3) the NEXT collection marks `x` and calls
+    `GC_Recurse(gc, x)` → `type_of(x)` → `type_instance(T, Mark)` on the released block: undefined behaviour, the typed history has no result
+    (on the real machine: SIGSEGV / heap-use-after-free in `GC_Recurse`, witness corpus/kf_c01_type_outlived.ops); (4) the hypothesis
+    `typesAnchored` is false on this heap, and true as soon as the program also keeps `T` in a stack word — then nothing is lost. -/
+theorem C01_type_outlived_refuted :
+    typeHeap.WF ∧
+    ReachableT Cfg.current typeHeap typeTy (rootWords Cfg.current typeHeap emptyThread [4096]) 4160 ∧
+    ¬ Reachable Cfg.current typeHeap (rootWords Cfg.current typeHeap emptyThread [4096]) 4160 ∧
+    4160 ∈ (collectWhole listSet Cfg.current clearFirstNow typeHeap emptyThread [4096] (seed listSet [])).pending ∧
+    (collectWhole listSet Cfg.current clearFirstNow typeHeap emptyThread [4096] (seed listSet [])).heap.lookup 4096 =
+      some ⟨.raw "Probe" [7], false⟩ ∧
+    TState.run listSet Cfg.current clearFirstNow [.op (.base .collect), .op (.base .collect)] typeStart = none ∧
+    typesAnchored listSet Cfg.current typeHeap typeTy emptyThread [4096] = false ∧
+    typesAnchored listSet Cfg.current typeHeap typeTy emptyThread [4096, 4160] = true ∧
+    ¬ C01_type_edge_statement := by
+  have hcf : clearFirstNow = true := by decide
+  obtain ⟨c1, c2, _⟩ := typeHeap_collect
+  have hrun : TState.run listSet Cfg.current clearFirstNow [.op (.base .collect), .op (.base .collect)] typeStart = none := by
+    rw [hcf]; exact typeHeap_second_collection_ub
+  refine ⟨typeHeap_wf, typeHeap_type_reachT, typeHeap_type_unreachable, ?_, ?_, hrun, ?_, ?_, ?_⟩
+  · rw [hcf]; exact c1
+  · rw [hcf]; exact c2
+  · cases ha : typesAnchored listSet Cfg.current typeHeap typeTy emptyThread [4096] with
+    | false => rfl
+    | true =>
+      obtain ⟨e, hl, hor⟩ := typesAnchored_spec listSet Cfg.current ha 4096 (by decide) 4160 rfl
+      have he : e = ⟨.raw "Type" [0], false⟩ := by
+        have : typeHeap.lookup 4160 = some ⟨.raw "Type" [0], false⟩ := rfl
+        rw [this] at hl; exact (Option.some.inj hl).symm
+      subst he
+      rcases hor with h | h
+      · cases h
+      · exact absurd ((reachable_iff_reach typeHeap_wf _ _).mpr
+          ((gcMark_iff_reach listSet Cfg.current typeHeap emptyThread [4096] 4160).mp h)) typeHeap_type_unreachable
+  · have hm : listSet.mem 4160 (gcMark listSet Cfg.current typeHeap emptyThread [4096, 4160]) = true :=
+      (gcMark_iff_reach listSet Cfg.current typeHeap emptyThread [4096, 4160] 4160).mpr
+        (.root (by rw [typeHeap_roots]; simp) (accepts_of_registered typeHeap_wf (by decide)))
+    unfold typesAnchored
+    rw [List.all_eq_true]
+    intro a ha
+    have : a = 4096 ∨ a = 4160 := by simpa [typeHeap] using ha
+    rcases this with h | h <;> subst h
+    · have l2 : typeHeap.lookup 4160 = some ⟨.raw "Type" [0], false⟩ := rfl
+      have t1 : typeTy 4096 = some 4160 := rfl
+      simp only [t1, l2, hm, Bool.or_true]
+    · have t2 : typeTy 4160 = none := rfl
+      simp only [t2, Bool.or_true]
+  · intro hs
+    obtain ⟨s2, evs, h1, _⟩ := hs [.op (.base .collect), .op (.base .collect)] typeStart typeHeap_wf
+      (by intro op hop; simp [TOp.erase] at hop; subst hop; trivial)
+    rw [hrun] at h1; cases h1
+
+/-- **C01 for the code in /repo now over typed histories, under `TState.anchored`**: whenever a mark phase begins, the type of every
+    registered object is static, root-registered, or reachable from the roots along the words the collector reads (decidable; false exactly
+    in the territory of KF-C01-type-outlived: `C01_type_outlived_refuted`).  Then every mark phase runs to completion — no `GC_Recurse` meets
+    a released Type —, the collections are those of the untyped history (`C01_current_source_history` applies to them), and every object
+    reachable from thread-local storage, a root-registered entry or a stack word ALONG POINTER WORDS OR HEADER TYPE POINTERS stays off the
+    pending list, registered, and (Box's ownership contract) not finalised and with unchanged contents.  `TOp.retag` (the allocator writes the
+    header of a block it hands out) may change any object's type at any time; no hypothesis on the mark bits or on exceptions. -/
+theorem C01_current_source_history_typed {σ : Type} (S : MarkSet σ) (ops : List TOp) (s0 : TState)
+    (wf : s0.g.heap.WF) (hok : ∀ op ∈ TOp.erase ops, op.ok)
+    (hanch : TState.anchored S Cfg.current clearFirstNow ops s0 = true) :
+    ∃ s2 evs, TState.run S Cfg.current clearFirstNow ops s0 = some (s2, evs) ∧
+      evs.map (·.ev) = (GState.run S Cfg.current clearFirstNow (TOp.erase ops) s0.g).2 ∧
+      ∀ tev ∈ evs, ∀ a,
+        ReachableT Cfg.current tev.ev.before.heap tev.ty
+          (rootWords Cfg.current tev.ev.before.heap tev.ev.before.thread tev.ev.before.stack) a →
+        a ∉ tev.ev.pending ∧ (tev.ev.before.heap.lookup a).isSome = true ∧
+        (tev.ev.exclusive S Cfg.current = true → a ∉ tev.ev.finalised ∧ tev.ev.after.lookup a = tev.ev.before.heap.lookup a) := by
+  obtain ⟨s2, evs, h1, h2, _, h4⟩ := run_of_anchored S Cfg.current clearFirstNow ops s0 hanch
+  refine ⟨s2, evs, h1, h2, ?_⟩
+  intro tev htev a hr
+  have hmem : tev.ev ∈ (GState.run S Cfg.current clearFirstNow (TOp.erase ops) s0.g).2 := by
+    rw [← h2]; exact List.mem_map_of_mem htev
+  have hwf : tev.ev.before.heap.WF :=
+    ((grun_events S Cfg.current clearFirstNow (TOp.erase ops) s0.g wf hok (.inl (by decide))).2 tev.ev hmem).1
+  have hr' := reachableT_reachable S Cfg.current hwf (h4 tev htev) a hr
+  exact ((C01_current_source_history S (TOp.erase ops) s0.g wf hok).2 tev.ev hmem).2 a hr'
+
+/-- non-vacuity: with the Type also held by a stack word the hypothesis holds for a history that re-tags an object and collects -/
+example : TState.anchored listSet Cfg.current clearFirstNow [.retag 4096 (some 4160), .op (.base (.setStack [4096, 4160])), .op (.base .collect)]
+    ⟨⟨typeHeap, emptyThread, [], []⟩, fun _ => none⟩ = true := by
+  have h := C01_type_outlived_refuted.2.2.2.2.2.2.2.1
+  have hty : (TState.retag ⟨⟨typeHeap, emptyThread, [], []⟩, fun _ => none⟩ 4096 (some 4160)).ty = typeTy := by
+    funext x; simp [TState.retag, typeTy]
+  simp only [TState.anchored, GOp.marks, Bool.not_true, Bool.false_or, Bool.not_false, Bool.true_or, Bool.true_and, Bool.and_true]
+  rw [hty]
+  exact h
+
+/-- **`levelX` is a conservative extension of `level`**: with no live unregistered object known it is the marker all the theorems above are about -/
+theorem C01_levelX_conservative {σ : Type} (S : MarkSet σ) (c : Cfg) (h : Heap) (d : Nat) :
+    levelX S c h (fun _ => none) d = level S c h d := by
+  induction d with
+  | zero => rfl
+  | succ d ih =>
+    have hcb : callbackX c h (fun _ => none) (level S c h d) = callback c h (level S c h d) := by
+      funext w m
+      cases hg : c.guarded <;> cases hl : h.lookup w <;> simp [callbackX, callback, hg, hl]
+    simp only [levelX, level, ih, hcb]
+
+/-- **The marker completes on a Tuple whose items are live unregistered objects, and follows the path through them** (the case the hypothesis
+    `CallbackSafe` of `C01_rec_completes` excluded although the C code is right): on `extHeap` the recursion with the call structure of GC.c
+    finishes at depth 7, having marked the Tuple and the Probe that is reachable only THROUGH the `new_raw` Array; `level`, which knows registered
+    objects only, answers `.ub` there; and with one of the three items neither registered nor live (`ext` without the stack Int) the answer is
+    `.ub` again — the territory of KF-C01-dangling-tuple-item / KF-C01-tuple-aliases-elements, and nothing more. -/
+theorem C01_tuple_live_items_complete :
+    (levelX listSet Cfg.current extHeap extLive 7).item 4096 [] = .ok [4160, 4096] ∧
+    (level listSet Cfg.current extHeap 5).item 4096 [] = .ub ∧
+    (levelX listSet Cfg.current extHeap (fun a => if a = 5008 then none else extLive a) 5).item 4096 [] = .ub := by
+  refine ⟨by decide, by decide, by decide⟩
+
+/-- the full statement the follow-up to audit 2 item 2 asks for — completion for EVERY heap whose Tuples / user Mark instances hand out pointers to
+    registered objects or to live unregistered objects (`ext`) whose own handed pointers are live in turn and whose nesting is finite (`rank`) —
+    is NOT proved in general: `C01_rec_completes` covers `ext = ∅` (every handed pointer registered), `C01_tuple_live_items_complete` a concrete
+    heap with static, stack and `new_raw` items; the general induction over `levelX` (the worklist `dfs` would have to splice the words of live
+    unregistered objects into the stack) is missing. -/
+def C01_rec_completes_live_statement : Prop :=
+  ∀ {σ : Type} (S : MarkSet σ) (h : Heap) (ext : Ext) (rank : Addr → Nat),
+    (∀ a e, h.lookup a = some e → ∀ w ∈ handed e.obj, (h.lookup w).isSome = true ∨ (ext w).isSome = true) →
+    (∀ a o, ext a = some o → ∀ w ∈ handed o, (h.lookup w).isSome = true ∨ ∃ o', ext w = some o' ∧ rank w < rank a) →
+    ∀ (ws : List Word) (m : σ), ∃ d m', foldRes (levelX S Cfg.current h ext d).item ws m = .ok m'
 
 end Cello.Heap
 
